@@ -366,6 +366,21 @@ ADDED10 = {
 for _pid, _t in ADDED10.items():
     CLAIMED[_pid]["text"] += " Round 10: " + _t
 
+ADDED11 = {
+ "C05": "(W19) every function drawing from the hash-twist generator re-seeds it first on every path; (W20) for every n-ary tag with an integer field the branch of foamTagFormat it takes reads the fields' data and yields no immediate format.",
+ "C06": "(S16) stabGetDomainExportMod walks the level's own bindings and consults no table entry.",
+ "C09": "(G12) every mark-clearing loop of stoGcSweepMixed runs from S to S + L with S and L derived from the same piece.",
+ "C10": "(T-slide) = C20-V16 and (T-branch-run) = C20-V11 on the free-piece index.",
+ "C12": "(J16) the double-word methods of foamj.Math mask every widened word and use unsigned quotient and shifts.",
+ "C13": "(U10) no read of scoUndoState is reachable from a call that clears it without a new assignment in between.",
+ "C16": "(M13) gcvNStmts, the total gc0OverSMax() compares with -Csmax, is written only by gc0ExternDecls and (frozen, dormant) gc0SeqStmt.",
+ "C17": "(R9) the name/offset/length fields of the section table are written only by libNewHeader, libGetHeader, libAddSection, libPutSection.",
+ "C19": "(L9) fiInitialiseFpu and what it calls contain no inline assembly and no call of a floating-point environment setter.",
+ "C20": "(V15) an atom is stored into a conjunction only by the four order-preserving routines or at index 0 of a one-literal conjunction; (V16) no store into N->part[..].F precedes, in its block, a loop sliding N->part[..].F within node N.",
+}
+for _pid, _t in ADDED11.items():
+    CLAIMED[_pid]["text"] += " Round 11: " + _t
+
 def main():
     checks = []
     for pid in sorted(CLAIMED):
